@@ -177,16 +177,16 @@ Lemma complete_brs_cons l pay k r : CompleteAt k -> CompleteBrs r -> CompleteBrs
 Proof.
   intros IHk [IHR IHL]. split.
   - intros g bs seen T Wg Wbs N Dj.
-    inversion T as [|g0 bs0 l0 pay0 k0 r0 bt hbt F Hh Po Tk Tr]; subst.
+    inversion T as [|g0 bs0 l0 pay0 k0 r0 bt hbt F Hh Po Fr Tk Tr]; subst.
     cbn [br_labels] in N, Dj. inversion N as [|l1 r1 Nl Nr]; subst.
     pose proof (Wbs _ _ F) as Wbt. sat. useIH IHk k.
     assert (M : str_mem l seen = false) by (apply str_mem_false, Dj; now left).
     destruct (IHR g bs (l :: seen) Tr Wg Wbs Nr) as [r' Er].
     { intros l' Hl' [<-|Hs]; [tauto|]. apply (Dj l'); auto. now right. }
     eexists. rewrite tc_brsR_cons. cbn [br_labels rev]. rewrite <- app_assoc. cbn [app].
-    unfold as_provider in *. cbv zeta. rw. reflexivity.
+    unfold as_provider, fresh in *. cbv zeta. rw. reflexivity.
   - intros g sh A bs seen T Wg WA Wbs N Dj.
-    inversion T as [|g0 sh0 A0 bs0 l0 pay0 k0 r0 bt hbt F Hh Po Fr Tk Tr]; subst.
+    inversion T as [|g0 sh0 A0 bs0 l0 pay0 k0 r0 bt hbt F Hh Po Pp Fr Tk Tr]; subst.
     cbn [br_labels] in N, Dj. inversion N as [|l1 r1 Nl Nr]; subst.
     pose proof (Wbs _ _ F) as Wbt. sat. useIH IHk k.
     assert (M : str_mem l seen = false) by (apply str_mem_false, Dj; now left).
@@ -247,8 +247,8 @@ Lemma complete_new x body k : CompleteAt body -> CompleteAt k -> CompleteAt (FNe
 Proof.
   intros IHb IHk g sh A T Wg WA.
   inversion T as [| | | | | | | | | | | | | | |
-     g0 sh0 A0 x0 fn args o k0 gl gr sg ft hft RU SP SL Ft Hh CG DN Tb Po Tk
-   | g0 sh0 A0 x0 body0 k0 gl gr xt xt1 h HC NC RU SP Nx AM Wx Hh CG DN Tb Po Tk | | | | | ]; subst.
+     g0 sh0 A0 x0 fn args o k0 gl gr sg ft hft PX RU SP SL Ft Hh AN CG DN Tb Po Tk
+   | g0 sh0 A0 x0 body0 k0 gl gr xt xt1 h PX HC NC RU SP Nx AM Wx Hh CG DN Tb Po Tk | | | | | ]; subst.
   - destruct (HSg _ _ SL) as [[ft0 [Eft Wft]] Wps]. rewrite Ft in Eft. inversion Eft; subst ft0.
     destruct (split_gamma_complete _ _ _ _ _ SP Wg (Forall_nil _)) as [ES [Wgl Wgr]].
     sat. destruct (reuse_guards_inv _ _ RU) as [G1 G2].
@@ -256,8 +256,13 @@ Proof.
     pose proof (proj2 (indep_one_sound _ _) DN) as IO.
     destruct (IHb _ _ _ Tb Wgl) as [b' Eb]; auto.
     destruct (IHk _ _ _ Tk) as [k' Ek]; [now apply wf_bind|auto|].
-    eexists. rewrite tc_new_call_eq. unfold tc_new_call. cbv zeta.
-    rewrite G1, G2. cbn [has_continuation]. unfold bind in *. rw. rewrite cut_ctx_eq. rw. reflexivity.
+    destruct (nty x) as [xt|] eqn:Nx.
+    + destruct (AN _ eq_refl) as [xt1 [AM [Wx Te]]].
+      match goal with W : check_wf D hft = true |- _ => pose proof (teq_equal _ _ Wx W Te) as EQa end.
+      eexists. rewrite tc_new_call_eq. unfold tc_new_call. cbv zeta.
+      rewrite PX, G1, G2, Nx. cbn [has_continuation]. unfold bind in *. rw. rewrite cut_ctx_eq. rw. reflexivity.
+    + eexists. rewrite tc_new_call_eq. unfold tc_new_call. cbv zeta.
+      rewrite PX, G1, G2, Nx. cbn [has_continuation]. unfold bind in *. rw. rewrite cut_ctx_eq. rw. reflexivity.
   - destruct (split_gamma_complete _ _ _ _ _ SP Wg (Forall_nil _)) as [ES [Wgl Wgr]].
     sat. destruct (reuse_guards_inv _ _ RU) as [G1 G2].
     pose proof (indep_all_complete _ _ Wgl CG) as IA.
@@ -266,7 +271,7 @@ Proof.
     destruct (IHk _ _ _ Tk) as [k' Ek]; [now apply wf_bind|auto|].
     pose proof (unfold_nonname D _ (head_nonname _ _ _ Hh)) as UH.
     eexists. rewrite (tc_new_ax_eq _ _ _ _ _ _ _ _ NC). unfold tc_new_ax. cbv zeta.
-    rewrite G1, G2, HC. unfold bind, as_provider in *. rw. rewrite cut_ctx_eq. rw. reflexivity.
+    rewrite PX, G1, G2, HC. unfold bind, as_provider in *. rw. rewrite cut_ctx_eq. rw. reflexivity.
 Qed.
 
 (* ---------------------------------------------------------------- all forms *)
